@@ -11,11 +11,13 @@ import FV.Model.Geom
   * The model follows the code with the repairs of `fixes/C02_*.diff`, `fixes/C12_*.diff` applied
     (fixed cells are never split; the y-loop of `griddify` ranges over the y cuts; `must_be_refined`
     has the non-empty guard of `refine`).
+  * Everything lives in `namespace FV.Alloc` (so that the model can be imported together with the YAML / netlist /
+    die models, which have their own `validIdent`, `Eps`, `Cell`, …).
   * `_module2rect` (module ↦ [(cell index, ratio)]) is represented without indices: the entries of a
     module are the cells that list it, in cell order (`entries`); the dictionary order of
     `_areas/_centers` is first-appearance order (`modules`).
 -/
-namespace FV
+namespace FV.Alloc
 
 inductive AErr | assertion | zeroDiv | value | index | key
   deriving DecidableEq, Repr, Inhabited
@@ -386,4 +388,4 @@ def Allocation.markFixed (a : Allocation α) (idxs : List Nat) : Allocation α :
   { a with cells := a.cells.zipIdx.map fun (c, i) =>
       if idxs.contains i then { c with rect := { c.rect with fixed := true } } else c }
 
-end FV
+end FV.Alloc
